@@ -64,7 +64,7 @@ func runC07(c *Ctx) {
 					continue
 				}
 				isCert := t == certT
-				isEntity := strings.HasSuffix(t, "openpgp.Entity")
+				isEntity := strings.HasSuffix(t, "openpgp.Entity") || strings.HasSuffix(t, "openpgp.Subkey")
 				if !isCert && !isEntity {
 					continue
 				}
@@ -104,9 +104,17 @@ func runC07(c *Ctx) {
 						return f == "PublicKey" || f == "PrimaryKey"
 					})
 				}
+				// for PGP objects the public key compared must be the one of the very entity / subkey
+				// that receives the private key (a test of the primary key says nothing about a subkey)
+				ofBase := func(v ssa.Value) bool {
+					if !isEntity || base == nil {
+						return true
+					}
+					return dependsOn(v, func(x ssa.Value) bool { return x == base })
+				}
 				g := isSameKeyGuard(p, func(ci ssa.CallInstruction) bool {
 					a := ci.Common().Args
-					return len(a) == 2 && ((derivedFromKey(a[0]) && isPub(a[1])) || (derivedFromKey(a[1]) && isPub(a[0])))
+					return len(a) == 2 && ((derivedFromKey(a[0]) && isPub(a[1]) && ofBase(a[1])) || (derivedFromKey(a[1]) && isPub(a[0]) && ofBase(a[0])))
 				})
 				missing, path := p.unguardedFromEntry(fn, st, g)
 				c.Check(len(missing) == 0, ra, key, p.Pos(st.Pos()), "guarded by SameKey(key, public key)==true", "a private key is paired with a certificate / PGP entity without checking that the public keys match", path...)
